@@ -11,6 +11,7 @@ import GgrsModel.Model.P2P
 import GgrsModel.Proofs.Monad
 import GgrsModel.Proofs.Queue
 import GgrsModel.Proofs.DropWorld
+import GgrsModel.Proofs.LockstepDrop
 
 namespace Ggrs.Endpoint
 
@@ -101,7 +102,7 @@ end Ggrs.P2P
 
 namespace Ggrs
 
-/-- **C07, the survivor's timeline (non-sparse rollback sessions; drops detected locally).** Take any
+/-- **C07, the survivor's timeline (rollback sessions, either saving mode; drops detected locally).** Take any
 run of remote-input arrivals, `advance_frame` calls whose requests the game executes, accepted
 `disconnect_player` calls and Disconnected events of endpoints (what a timeout raises), in any
 order and number, from a state satisfying the invariant (a freshly built session does, below).
@@ -150,7 +151,7 @@ theorem C07_survivor_timeline (x y : P2P × TLState) (h0 : XInv x) (hrun : XStar
     have := h.remote p hp hnl
     rw [this.2.2, this.2.1]
 
-/-- **C07, the final timeline (non-sparse rollback sessions; drops detected locally).** After any
+/-- **C07, the final timeline (rollback sessions, either saving mode; drops detected locally).** After any
 run of arrivals, calls, accepted `disconnect_player` calls and Disconnected events, let the game
 execute the whole request list of one more `advance_frame` call. Then for every player that was
 marked disconnected when the call began and every frame `f` the game has simulated so far: if `f`
@@ -182,13 +183,45 @@ theorem C07_final_timeline (x y : P2P × TLState) (h0 : XInv x) (hrun : XStar x 
   · have := hinv'.remote p hp' (by rw [hlp]; exact hnl)
     rw [this.2.2, this.2.1, hst]
 
-/-- The premises of `C07_survivor_timeline` are satisfiable: a freshly built non-sparse session
+/-- The premises of `C07_survivor_timeline` are satisfiable: a freshly built session
 (all queues new, every status blank, frame 0, no disconnect pending) satisfies `XInv` against any
 game timeline at frame 0. -/
 example (s : P2P) (R : Nat → List (Input × InputStatus)) (n : Nat)
     (hq : s.sync.queues = List.replicate n InputQueue.new) (hst : s.localConnectStatus = List.replicate n {})
-    (hc : s.sync.currentFrame = 0) (hns : s.sparse = false) (hdf : s.disconnectFrame = NULL_FRAME) :
+    (hc : s.sync.currentFrame = 0) (hdf : s.disconnectFrame = NULL_FRAME) :
     XInv (s, ⟨0, R⟩) :=
-  ⟨_, _, SessInvD_of_SessInv s _ ⟨0, R⟩ [] (SessInv_init s R n hq hst hc) hns hdf⟩
+  ⟨_, _, SessInvD_of_SessInv s _ ⟨0, R⟩ [] (SessInv_init s R n hq hst hc) hdf⟩
+
+/-- **C07 in lockstep mode.** Start from any state satisfying the lockstep invariant with drops (a
+freshly built session does: `LkInvD_init`) and run ANY sequence of remote-input arrivals, lockstep
+`advance_frame` calls whose requests the game executes, accepted `disconnect_player` calls and
+Disconnected events of endpoints. Then (1) every row of the game's timeline below the current frame
+is `rowOfD`: per player the real input with status Confirmed, or — exactly for the players marked
+disconnected with a last frame before that row — the blank input with status Disconnected (a
+lockstep session never runs beyond a connected player's last frame, so no simulated frame ever has
+to be redone when a player drops: `disconnect_frame` stays NULL); and (2) one more call returns
+no request at all or exactly one AdvanceFrame carrying that row for the current frame — never a
+SaveGameState or LoadGameState — and keeps the invariant. -/
+theorem C07_lockstep_timeline (x y : P2P × TLState) (h0 : ∃ gh, LkInvD x.1 gh x.2) (hrun : LkXStar x y) :
+    ∃ gh, LkInvD y.1 gh y.2 ∧
+      (∀ f : Nat, (f : Int) < y.1.sync.currentFrame →
+        y.2.R f = rowOfD gh y.1.localConnectStatus y.1.sync.queues.length f) ∧
+      ∀ (now : Nat) (s' : P2P) (reqs' : List Request), y.1.advanceLockstepFrame now [] = .ok (s', reqs') →
+        ∃ gh', LkInvD s' gh' (execReqs y.2 reqs') ∧
+          ((reqs' = [] ∧ s'.sync.currentFrame = y.1.sync.currentFrame) ∨
+           (∃ c : Nat, y.1.sync.currentFrame = (c : Int) ∧
+             reqs' = [.advance (rowOfD gh' y.1.localConnectStatus y.1.sync.queues.length c)] ∧
+             s'.sync.currentFrame = y.1.sync.currentFrame + 1)) := by
+  obtain ⟨gh, h⟩ := LkInvD_run x y h0 hrun
+  refine ⟨gh, h, h.timeline, ?_⟩
+  intro now s' reqs' hadv
+  obtain ⟨gh', h', hcase, _⟩ := lockstepTick_specD y.1 s' gh y.2 now reqs' h hadv
+  exact ⟨gh', h', hcase⟩
+
+/-- The premises of `C07_lockstep_timeline` are satisfiable. -/
+example (s : P2P) (R : Nat → List (Input × InputStatus)) (n : Nat)
+    (hq : s.sync.queues = List.replicate n InputQueue.new) (hst : s.localConnectStatus = List.replicate n {})
+    (hc : s.sync.currentFrame = 0) (hdf : s.disconnectFrame = NULL_FRAME) :
+    ∃ gh, LkInvD s gh ⟨0, R⟩ := LkInvD_init s R n hq hst hc hdf
 
 end Ggrs
